@@ -56,6 +56,9 @@ type Ctx struct {
 	cur      []byte
 	violSeen map[string]int
 	ntSeen   map[uint64]bool
+	// Respawn asks the worker to exit (code 75) once the current batch has been journalled: a
+	// library call was abandoned on its goroutine after a deadline and keeps running
+	Respawn bool
 }
 
 const curSize = 1 << 16
